@@ -193,6 +193,7 @@ def bond_types_mol2():
 
 
 _JSON_DONORS = None
+_JSON_LOCK = __import__("threading").Lock()
 
 
 def _json_donor(rng, feats):
@@ -200,17 +201,19 @@ def _json_donor(rng, feats):
     import iodata
 
     global _JSON_DONORS
-    if _JSON_DONORS is None:
-        _JSON_DONORS = []
-        for e in corpus.entries():
-            if e["fmt"] == "json_qcschema":
-                with warnings.catch_warnings():
-                    warnings.simplefilter("ignore")
-                    try:
-                        iodata.load_one(e["path"], fmt="json_qcschema")
-                        _JSON_DONORS.append(e)
-                    except Exception:
-                        pass
+    with _JSON_LOCK:  # the monitor's own state must be thread-safe (C16 calls this from several threads)
+        if _JSON_DONORS is None:
+            donors = []
+            for e in corpus.entries():
+                if e["fmt"] == "json_qcschema":
+                    with warnings.catch_warnings():
+                        warnings.simplefilter("ignore")
+                        try:
+                            iodata.load_one(e["path"], fmt="json_qcschema")
+                            donors.append(e)
+                        except Exception:
+                            pass
+            _JSON_DONORS = donors
     e = _JSON_DONORS[int(rng.integers(len(_JSON_DONORS)))]
     with warnings.catch_warnings():
         warnings.simplefilter("ignore")
